@@ -44,7 +44,12 @@ RULE = ("/proc/net/dev files printed by the kernel printer of coq/C09/Spec.v fro
         "Spec.spec_wrap_hist (restarts seen while the device stayed listed; dropped when it is absent). Live cases: the running kernel's /proc/net/dev (also with real ifb interfaces created for the "
         "snapshot under names ending in 0x1f / starting with U+0085), /proc/diskstats and /sys/block/*/stat, parsed into the spec "
         "records, re-printed by the Coq printers (must be byte-identical, else exit 2), then run through model, spec and psutil, "
-        "and psutil is also asked about the real /proc (same names, no counter below the snapshot). Large tables generated inside Gallina "
+        "and psutil is also asked about the real /proc (same names, no counter below the snapshot). Every fake /sys/block/<disk> carries, as a fixed function of its name, no queue directory or "
+        "queue/{hw_sector_size,logical_block_size,physical_block_size,minimum_io_size,optimal_io_size} saying 512, 4096, 2048, "
+        "1024, 0, garbage or nothing (plus the /sys/class/block view): byte counts must stay sectors x 512, and every file "
+        "access psutil makes during disk_io_counters() is logged (pv.shim) and judged -- anything but {procfs}/diskstats, "
+        "os.access('/sys/block/<name>') and, without diskstats, the /sys/block walk and .../stat files is a correspondence "
+        "difference. Large tables generated inside Gallina "
         "from a compact seed (device k = 'd<k>', counters 1000k+j or 2^64-1-(32k+j)): /proc/diskstats of exactly 32768 bytes, "
         "with a line ending exactly at byte 32768 and 40 more lines, of 65537 bytes (625 lines), of 131 lines of 64-bit-wide "
         "counters (49 KB), a 150-interface wide /proc/net/dev with a line ending at 32768, a /sys/block of 150 disks "
@@ -950,6 +955,12 @@ def judge(case, coq, impl):
     model = coq.get("model")
     if isinstance(model, list) and any(_is_oom(m) for m in model) and coq.get("spec") is None:
         return Verdict("skip", "OutOfModel")
+    if isinstance(impl, dict) and impl.get("t") == "UnexpectedAccess":
+        # the answer itself is judged as usual; an access outside the documented data path is a correspondence difference
+        v = default_judge(None, case, coq, impl["a"][1])
+        if v.kind == "violation":
+            return Verdict("violation", v.detail + "; and unexpected accesses %r" % (impl["a"][0][:4],))
+        return Verdict("corr", "disk_io_counters() touched files outside its documented data path: %r" % (impl["a"][0][:6],))
     return default_judge(None, case, coq, impl)
 
 
@@ -1000,6 +1011,7 @@ def _both(fn, clear, sort=False, conv=None):
     """[per-device, system-wide], each nowrap=False and cross-checked against nowrap=True on a cleared cache."""
     out = []
     _front = conv or globals()["_front"]
+    _log_reset()
     for per in (True, False):
         a = outcome(lambda: fn(per, False), _front)
         clear()
@@ -1010,6 +1022,7 @@ def _both(fn, clear, sort=False, conv=None):
         elif sort and per:
             a = _sort_dict(a)
         out.append(a)
+    _log_take()
     return out
 
 
@@ -1025,12 +1038,79 @@ def _reset_tree(env):
     return root
 
 
+QUEUE_FILES = ("hw_sector_size", "logical_block_size", "physical_block_size", "minimum_io_size", "optimal_io_size")
+QUEUE_VARIANTS = [None, b"512\n", b"4096\n", b"2048\n", b"1024\n", b"0\n", b"4k\n", b"", b"4096\n"]
+
+
+def _mk_queue(dirpath, name):
+    """/sys/block/<disk>/queue/{hw_sector_size,...}: the device's own sector size (4Kn drives say 4096).  The sector counts of
+    diskstats / stat are in 512-byte units whatever these say, so they must not influence any result -- nor be opened.
+    The variant is a fixed function of the name: no queue directory, 512, 4096, 2048, 1024, 0, garbage, empty files."""
+    import zlib
+    v = QUEUE_VARIANTS[zlib.crc32(bytes(name)) % len(QUEUE_VARIANTS)]
+    q = os.path.join(dirpath, b"queue")
+    if v is None:
+        return
+    os.makedirs(q, exist_ok=True)
+    for i, fn in enumerate(QUEUE_FILES):
+        with open(os.path.join(q, fn.encode()), "wb") as f:
+            f.write(v if i != 3 or v in (b"", b"4k\n") else b"%d\n" % (int(v) * 2 if v.strip().isdigit() else 0))
+    # the class view of the same device
+    cls = os.path.join(os.fsencode(_st["sys"]), b"class", b"block")
+    os.makedirs(cls, exist_ok=True)
+    try:
+        os.symlink(os.path.join(b"..", b"..", b"block", bytes(name)), os.path.join(cls, bytes(name)))
+    except OSError:
+        pass
+
+
 def _mk_block(listing):
     blk = os.path.join(_st["sys"], "block")
     os.makedirs(blk, exist_ok=True)
     for name in listing:
-        os.makedirs(os.path.join(os.fsencode(blk), name), exist_ok=True)
+        dd = os.path.join(os.fsencode(blk), name)
+        os.makedirs(dd, exist_ok=True)
+        _mk_queue(dd, name)
     return blk
+
+
+def _log_reset():
+    _st["shim"].reset()
+
+
+def _log_take():
+    _st.setdefault("log", []).extend(_st["shim"].log)
+    _st["shim"].reset()
+
+
+def _unexpected_accesses(env):
+    """accesses made during the psutil calls of this case that the documented data path does not include: anything but
+    {procfs}/diskstats (open, exists), /sys/block (exists, listdir), os.access("/sys/block/<name>") and -- only when there is
+    no diskstats file -- the walk of /sys/block and the opening of .../stat files"""
+    procroot = os.path.join(env["work"], "proc")
+    ds = os.path.join(procroot, "diskstats")
+    sysfs_mode = not os.path.exists(ds)
+    bad = set()
+    for kind, path in _st.get("log", []):
+        if path == ds:
+            ok = kind in ("open", "stat")
+        elif path == "/sys/block":
+            ok = kind in ("stat", "listdir", "scandir", "access")
+        elif path.startswith("/sys/block/"):
+            rel = path[len("/sys/block/"):]
+            if kind == "access" and "/" not in rel:
+                ok = True
+            elif sysfs_mode:
+                ok = kind in ("scandir", "stat", "lstat") or (kind == "open" and os.path.basename(rel) == "stat")
+            else:
+                ok = False
+        elif path == "/sys" or path.startswith("/sys/") or path.startswith(procroot + "/"):
+            ok = False
+        else:
+            continue
+        if not ok:
+            bad.add((kind, path.replace(procroot, "{procfs}")))
+    return sorted(bad)
 
 
 def _live_real(case, coq, psutil, res, env):
@@ -1058,8 +1138,16 @@ def _live_real(case, coq, psutil, res, env):
     return res
 
 
+DISK_KINDS = ("disk", "diskraw", "sys", "sysraw", "nosource", "diskbig", "sysbig", "diskhist")
+
+
 def impl_run(case, coq, env):
+    _st["log"] = []
     r = _impl_run(case, coq, env)
+    if case["kind"] in DISK_KINDS:
+        bad = _unexpected_accesses(env)
+        if bad:
+            r = T("UnexpectedAccess", [list(x) for x in bad], r)
     if case.get("live"):
         import psutil
         r = _live_real(case, coq, psutil, r, env)
@@ -1100,6 +1188,7 @@ def _impl_run(case, coq, env):
         for name, content in _big_sys_ents(case):
             dd = os.path.join(os.fsencode(blk), name)
             os.makedirs(dd)
+            _mk_queue(dd, name)
             with open(os.path.join(dd, b"stat"), "wb") as f:
                 f.write(content)
         return _both(disk, psutil.disk_io_counters.cache_clear, sort=True, conv=_front_c)
@@ -1120,7 +1209,8 @@ def _impl_run(case, coq, env):
         i = 0
         for d in case["disks"]:
             dd = os.path.join(blk, d["name"])
-            os.makedirs(os.path.join(dd, "queue"))          # a sub directory without a stat file
+            os.makedirs(os.path.join(dd, "queue"))          # a sub directory without a stat file ...
+            _mk_queue(os.fsencode(dd), os.fsencode(d["name"]))   # ... holding the device's own sector size
             with open(os.path.join(dd, "stat"), "wb") as f:
                 f.write(unB(coq["printed"][i]))
             i += 1
@@ -1159,7 +1249,9 @@ def _impl_run(case, coq, env):
                     f.write(unB(coq["printed"][i]))
                 shutil.rmtree(os.path.join(_st["sys"], "block"), ignore_errors=True)
                 _mk_block([unB(x) for x in coq["listing"][i]])
+                _log_reset()
                 out.append(outcome(lambda: psutil.disk_io_counters(perdisk=p["per"]), _front))   # default nowrap
+                _log_take()
         finally:
             psutil.disk_io_counters.cache_clear()
         return out
@@ -1187,7 +1279,7 @@ def _text_run(case, env):
 
 
 MANIFEST = {
-    "text": "Theorems (Coq 8.16, 26, closed under the global context) over a hand-written Gallina transcription of the anchored code, "
+    "text": "Theorems (Coq 8.16, 30, closed under the global context) over a hand-written Gallina transcription of the anchored code, "
             "text-mode reading included (UTF-8/surrogateescape decoding, universal newlines, str.split/strip blanks): for every list of "
             "interfaces whose names are any bytes not beginning/ending with a space and without line breaks -- proved to include every "
             "name dev_valid_name() accepts -- and every 16 digit strings per interface (no bound on magnitude or count), parsing the "
@@ -1209,6 +1301,9 @@ MANIFEST = {
             "wrap bookkeeping leaves no offset for any name absent from the new dict whatever the sizes of the old and new sets; "
             "for any number of lines (no bound, hence no bound on the file size) the file has one line per device and the per-device "
             "answer one entry per line in file order (exercised on generated tables beyond the 32 KiB read buffer and beyond 64 KiB); "
+            "the per-device answer does not depend on sysfs at all and is a function of the device's own line with bytes = 512 x sectors, "
+            "the total depends on sysfs only through which names are /sys/block entries (fake trees carry queue/hw_sector_size etc. "
+            "saying 4096/2048/1024/0/garbage and every file access of disk_io_counters() is judged); "
             "the /sys/block fallback; disk_usage equals total/used/free/percent of the property for every statvfs tuple with f_frsize "
             "as the unit and f_bsize never entering the result, within 0..100 for kernel-shaped tuples. The model is tied to the "
             "real psutil on every run by executing both on kernel-printed and malformed files over a fake /proc and /sys and comparing "
